@@ -16,8 +16,10 @@ def runCase (lines : Array String) : Array String := Id.run do
   let mut s : RS := {}
   let mut out := #[]
   let mut ids : List Nat := []
+  let mut split := false
   for l in lines do
     match words l with
+    | ["kind", k] => split := k.endsWith "+sub" || k.endsWith "+bus"
     | "kind" :: _ => pure ()
     | ["plan", f, c] => plan := { failAt := optNat f, crashAfter := optNat c }
     | ["pub", ty, r] =>
@@ -39,6 +41,8 @@ def runCase (lines : Array String) : Array String := Id.run do
   for id in sorted do
     let d := (s.delivered.filter (fun p => p.1 == id)).map (·.2)
     out := out.push s!"id {id} saved={savedOf s id} delivered={showNatList d}"
+    -- an explicit subscription store takes every offset; the event store's own offset table stays empty
+    if split then out := out.push s!"evstore-saved {id} 0"
   let logS := if s.log.isEmpty then "-" else ",".intercalate (s.log.map fun (t, r) => s!"{t}:{r}")
   out := out.push ("log " ++ logS)
   out := out.push s!"nops {s.nops}"
